@@ -223,19 +223,34 @@ func TestVerif_C16_commit_gates(t *testing.T) {
 				rb = []byte("{not json")
 			}
 			p := vC16Plugin(ids, writers, false, my, cand, ocrErr, rd, false)
-			ok, err := p.ShouldTransmitAcceptedReport(ctx, 1, ocr3types.ReportWithInfo[[]byte]{Report: rb})
-			candS := cSome(cN(uint64(cand)))
-			if ocrErr {
-				candS = cNone()
+			// a long-lived instance: the home chain's candidate digest changes between calls (swapped mid-flight);
+			// every call must be decided by the configuration read at that moment
+			steps := r.Range(1, 4)
+			for st := 0; st < steps; st++ {
+				if st > 0 {
+					cand = byte(r.Range(0, 2))
+					ocrErr = r.Chance(1, 8)
+					hc := p.homeChain.(*vHomeChain)
+					hc.OCRErr = ocrErr
+					hc.OCR.CandidateConfig.ConfigDigest = vC16Digest(cand)
+				}
+				ok, err := p.ShouldTransmitAcceptedReport(ctx, uint64(st+1), ocr3types.ReportWithInfo[[]byte]{Report: rb})
+				candS := cSome(cN(uint64(cand)))
+				if ocrErr {
+					candS = cNone()
+				}
+				rootsOK := mode == 0 || mode == 1
+				in := cApp("GCommitT", cN(uint64(my)), candS, cBool(decodeOK), cBool(rootsOK))
+				cls := "transmit"
+				if my == cand {
+					cls = "transmit-candidate"
+				}
+				if st > 0 {
+					cls += "-later-call"
+				}
+				sink.Emit("C16_gate_commit", cls, true, cPair(in, code(ok, err)),
+					map[string]any{"my": my, "cand": cand, "ocrErr": ocrErr, "decodeOK": decodeOK, "rootsMode": mode, "call": st})
 			}
-			rootsOK := mode == 0 || mode == 1
-			in := cApp("GCommitT", cN(uint64(my)), candS, cBool(decodeOK), cBool(rootsOK))
-			cls := "transmit"
-			if my == cand {
-				cls = "transmit-candidate"
-			}
-			sink.Emit("C16_gate_commit", cls, true, cPair(in, code(ok, err)),
-				map[string]any{"my": my, "cand": cand, "ocrErr": ocrErr, "decodeOK": decodeOK, "rootsMode": mode})
 		} else {
 			// ---- ShouldAcceptAttestedReport
 			decodeOK := !r.Chance(1, 8)
